@@ -500,6 +500,10 @@ class Lane:
         self.O = os.path.join(self.dir, "o")
         os.makedirs(self.R)
         os.makedirs(self.O)
+        # the drain sentinel: a file that exists before the watches do; a drain toggles its mode, which the
+        # unfiltered watch reports as FileModified(R/.s) and nothing else (no parent DirModified)
+        self.S = os.path.join(self.R, ".s")
+        os.close(os.open(self.S, os.O_CREAT | os.O_EXCL | os.O_WRONLY, 0o600))
         self.hu = self.hf = None
         self.marks = []          # (len(unfiltered), len(filtered)) after each step
         self.dead = None         # reason the lane could not be driven to the end
@@ -507,7 +511,7 @@ class Lane:
 
     def is_sentinel(self, e):
         for p in (e.src_path, e.dest_path):
-            if p and os.path.dirname(p) == self.R and os.path.basename(p).startswith(".s-"):
+            if p and p == self.S:
                 return True
         return False
 
@@ -544,7 +548,7 @@ def emitter_quiet(em):
 
 def run_lanes(lanes, history, res: Result | None, timeout=8.0):
     """Drive `history` on all lanes (they share one observer per emitter kind).  Returns per-lane verdicts."""
-    from watchdog.events import FileCreatedEvent, DirDeletedEvent
+    from watchdog.events import DirDeletedEvent, FileModifiedEvent
     from watchdog.observers.inotify import InotifyObserver
 
     observers = {}
@@ -577,9 +581,8 @@ def run_lanes(lanes, history, res: Result | None, timeout=8.0):
                     ln.root_gone = True
                     waiting[id(ln)] = (ln, start, lambda e, ln=ln: isinstance(e, DirDeletedEvent) and e.src_path == ln.R)
                 else:
-                    s = os.path.join(ln.R, f".s-{step}")
-                    os.close(os.open(s, os.O_CREAT | os.O_EXCL | os.O_WRONLY, 0o644))
-                    waiting[id(ln)] = (ln, start, lambda e, s=s: isinstance(e, FileCreatedEvent) and e.src_path == s)
+                    os.chmod(ln.S, 0o600 if step & 1 else 0o640)
+                    waiting[id(ln)] = (ln, start, lambda e, s=ln.S: isinstance(e, FileModifiedEvent) and e.src_path == s)
             deadline = time.monotonic() + timeout
             while waiting and time.monotonic() < deadline:
                 for k in list(waiting):
